@@ -179,12 +179,22 @@ func genSched(r *lib.Rand, tier string) History {
 	timeout := r.Range(1, 4)
 	freq := timeout + r.Range(3, 9)
 	nctx := 1 + r.Weighted(3, 1)
+	// two in five runs: the contexts belong to a module (keeper-level create / pause / start, callbacks recorded)
+	owned := r.Chance(2, 5)
+	pauseK, startK := "pause", "start"
+	if owned {
+		pauseK, startK = "modpause", "modstart"
+	}
 	for k := 0; k < nctx; k++ {
 		s := Step{K: "call", Svc: 0, Who: 5, CapA: 100000, Timeout: timeout, Rep: true, Freq: freq, Total: []int64{-1, -1, 4, 6}[r.Intn(4)]}
 		s.Provs = [][]int{{2}, {2, 3}, {3}}[r.Intn(3)]
 		if k == 1 {
 			s.Timeout = r.Range(1, 4)
 			s.Freq = s.Timeout + r.Range(2, 6)
+		}
+		if owned {
+			s.K = "modcreate"
+			s.Thr = r.Range(1, int64(len(s.Provs)))
 		}
 		h.Steps = append(h.Steps, s)
 	}
@@ -202,16 +212,16 @@ func genSched(r *lib.Rand, tier string) History {
 			b = a // pause and start inside one block
 		}
 		sel := r.Intn(1000)
-		events[a] = append(events[a], Step{K: "pause", Sel: sel})
-		events[b] = append(events[b], Step{K: "start", Sel: sel})
+		events[a] = append(events[a], Step{K: pauseK, Sel: sel})
+		events[b] = append(events[b], Step{K: startK, Sel: sel})
 	}
 	for k := r.Weighted(2, 2, 1); k > 0; k-- {
 		b := 1 + r.Intn(blocks-1)
 		switch r.Weighted(3, 2, 1, 1) {
 		case 0:
-			events[b] = append(events[b], Step{K: []string{"pause", "start"}[r.Intn(2)], Sel: r.Intn(1000), Mode: 1})
+			events[b] = append(events[b], Step{K: []string{pauseK, startK}[r.Intn(2)], Sel: r.Intn(1000), Mode: 1})
 		case 1:
-			events[b] = append(events[b], Step{K: "start", Sel: r.Intn(1000)})
+			events[b] = append(events[b], Step{K: startK, Sel: r.Intn(1000)})
 		case 2:
 			events[b] = append(events[b], Step{K: "updctx", Sel: r.Intn(1000), Freq: freq + r.Range(0, 3)})
 		default:
